@@ -877,6 +877,20 @@ func FixedCases(run *hx.Run) {
 	add(StepDesc{Ins: []Desc{{Topo: tri, Idx: []int{0, 1, 2, 3, 4, 5, 0, 3, 1},
 		Attrs: []Attr{pos([]int64{0, 0, 0}, []int64{5, 0, 0}, []int64{0, 5, 0}, []int64{0, 0, 0}, []int64{5, 0, 0}, []int64{5, 5, 0}, []int64{9, 9, 9}), k(10, 11, 12, 13, 14, 15, 16)}}},
 		Op: OpDesc{Op: "weld", Attr: "Position", Decimal: 0}})
+	// slice by plane: (a) a quad mesh - the pinned code cut ANY index list into threes and kept the topology
+	// (fixes/C02-slice-requires-triangles), function and Transformer; (b) a triangle mesh without the
+	// attribute; (c) a point cloud; (d) a triangle mesh with a scalar attribute and a plane THROUGH a triangle
+	quadPos := pos([]int64{0, 0, 0}, []int64{1, 0, 0}, []int64{1, 1, 0}, []int64{0, 1, 0}, []int64{5, 0, 0}, []int64{6, 0, 0}, []int64{6, 1, 0}, []int64{5, 1, 0})
+	planeX3 := [][]int64{{3, 0, 0}, {3, 1, 0}, {3, 0, 1}}
+	for _, variant := range []string{"", "t"} {
+		add(StepDesc{Ins: []Desc{{Topo: int(modeling.QuadTopology), Idx: []int{0, 1, 2, 3, 4, 5, 6, 7}, Attrs: []Attr{quadPos}}},
+			Op: OpDesc{Op: "slice", Variant: variant, Attr: "Position", Data: planeX3}})
+	}
+	add(StepDesc{Ins: []Desc{{Topo: tri, Idx: []int{0, 1, 2}, Attrs: []Attr{k(1, 2, 3)}}}, Op: OpDesc{Op: "slice", Attr: "Position", Data: planeX3}})
+	add(StepDesc{Ins: []Desc{{Topo: pt, Idx: []int{0, 1, 2, 3}, Attrs: []Attr{quadPos}}}, Op: OpDesc{Op: "slice", Attr: "Position", Data: planeX3}})
+	add(StepDesc{Ins: []Desc{{Topo: tri, Idx: []int{0, 1, 2, 2, 1, 3, 4, 5, 6}, Attrs: []Attr{
+		pos([]int64{0, 0, 0}, []int64{2, 0, 0}, []int64{0, 2, 0}, []int64{8, 8, 0}, []int64{5, 0, 0}, []int64{6, 0, 0}, []int64{6, 1, 0}, []int64{9, 9, 9}), k(10, 11, 12, 13, 14, 15, 16, 17)}}},
+		Op: OpDesc{Op: "slice", Attr: "Position", Data: planeX3}})
 	// append with attributes missing on either side
 	add(StepDesc{Ins: []Desc{
 		{Topo: tri, Idx: []int{2, 1, 0}, Mats: []Mat{{1, 0}}, Attrs: []Attr{pos([]int64{0, 0, 0}, []int64{1, 0, 0}, []int64{0, 1, 0}), k(1, 2, 3)}},
